@@ -16,7 +16,7 @@ RULE = ("API level (fresh Program per case, no-progress detector on the size loo
         "(3) programs of 1-8 lines assembled from token pools (real and junk mnemonics incl. every pseudo-op, "
         "labels incl. register names, operand garbage, expressions such as L0/0, L0-L1, 5/0, 70000); (4) the C03 "
         "PC-relative sweep (every distance 0..140 both directions, nested statements); (5) INCLUDE graphs in a temp "
-        "directory: missing file, self-include, 2-/3-cycles, diamonds, nesting; (6) 19 line templates x 6 characters "
+        "directory: missing file, self-include, 2-/3-cycles, diamonds, nesting; (6) 19 line templates x 9 characters "
         "outside printable ASCII (Latin-1, U+0100, U+20AC, beyond the BMP, DEL, a control) in strings, character "
         "literals, labels, comments and operands; (7) very long tokens, lines and programs (decimal literals of up to "
         "5000 digits in 14 operand positions, 5000-character labels, 8000-character strings, 30000-element lists, "
@@ -35,7 +35,7 @@ HEALTH = {"outcome:DIAG": 0.06, "outcome:OK": 0.06, "class:include": 120, "class
 FUZZ = {"target": "fuzz/fuzz_asm.py", "seconds": {"quick": 0, "thorough": 180}}
 EXHAUSTIVE = {"quick": ["label,PCR sweep: 7 mnemonics x plain/indirect x k x both directions x distance 0..140",
                         "INCLUDE graph catalogue (missing, self, 2-cycle, 3-cycle, diamond, nested) at API and CLI level",
-                        "19 line templates x 6 non-ASCII / control characters, alone and in context, API and CLI level"],
+                        "19 line templates x 9 non-ASCII / control characters, alone and in context, API and CLI level"],
               "thorough": ["as quick"]}
 
 # ---------------------------------------------------------------- token pools
@@ -85,7 +85,7 @@ def _mk_line(lab, mn, op, cmt, ws):
 
 _line = st.builds(_mk_line, st.sampled_from(LABELS), st.sampled_from(MNEMONICS), _operand, _comment, st.integers(0, 11))
 # characters outside ASCII: Latin-1, beyond one byte, beyond the BMP, and two controls ("all texts")
-_ODD_CHARS = ["\u00e9", "\u0100", "\u20ac", "\U0001F600", "\x7f", "\x01"]
+_ODD_CHARS = ["\u00e9", "\u0100", "\u20ac", "\U0001F600", "\x7f", "\x01", "\x0c", "\x85", "\u2028"]
 _raw = st.text(alphabet=list("ABXL01 \t$#%<>[],+-*/'\";@.:") + _ODD_CHARS, max_size=24).map(lambda s: s + "\n")
 # mostly one generated line in a valid context: a second bad line would only be shadowed by the first diagnostic
 _token_program = st.one_of(st.lists(_line, min_size=1, max_size=1), st.lists(_line, min_size=1, max_size=1),
